@@ -119,6 +119,7 @@ func randPolicy(r *rand.Rand, faults bool) *Policy {
 	if faults && r.Intn(2) == 0 {
 		p.PPre = pick(r, 0, 0.05, 0.2)
 		p.PPost = pick(r, 0, 0.05, 0.2)
+		p.PRollback = pick(r, 0, 0.05, 0.2)
 		p.PQueueFull = pick(r, 0, 0, 0.05)
 		p.PRouterErr = pick(r, 0, 0, 0.1)
 		p.FailBudget = 1 + r.Intn(3)
